@@ -116,7 +116,19 @@ CLAIMED["C17"] = (
     "mappings, cached hash) can enter state or digest.",
     _NOTE, "DESIGN.md section 5, C17")
 
-for _p in ["C02", "C02", "C03", "C05", "C10", "C11",
+CLAIMED["C05"] = (
+    "path rules (look-aside discipline: one key for lookup and store, store on "
+    "every computing path) on CachedMapper.__call__ and the CSE mix-in; key "
+    "coverage by def-use; MRO/sibling agreement of cached variants; "
+    "hidden-state (purity) scan of every reachable handler; boolean analysis of "
+    "the optimizer's flag conditions and guards over all 16 option combinations",
+    "Memoization transparency is reduced to finite facts about the cache code "
+    "and about every handler a memoizing mapper can reach; the optimizer's "
+    "obligations are decided over all option combinations. The class the "
+    "optimizer generates is never built or run.",
+    _NOTE, "DESIGN.md section 5, C05")
+
+for _p in ["C02", "C03", "C10", "C11",
            "C12", "C15", "C16", "C19"]:
     NOT_APPLICABLE[_p] = ("check under construction in this revision (see "
                           "DESIGN.md for the planned static rule)")
